@@ -6,6 +6,7 @@ import MesonModel.Rewrite.Parse
 import MesonModel.Rewrite.ListEdit
 import MesonModel.Rewrite.PathMatch
 import MesonModel.Rewrite.Command
+import MesonModel.Rewrite.SrcCommand
 /-
 driver commands of area `rewrite` (C17).
 
@@ -197,6 +198,18 @@ def handle (cmd : String) (fs : List String) : String :=
         | .error er => showErr er
       else "ERR:MesonBugException"
     | _, _, _ => "bad-kwcmd"
+  | "srccmd", [text, mt, tree, kind, rm, root, oldT, files] =>
+    -- one whole `target add/rm (extra) files` command: the chosen list node AS PARSED + the command
+    match natList mt, decodeTree tree with
+    | [l, c, el, ec], some e =>
+      if e.opsKnown then
+        let k := if kind == "1" then ListKind.target else if kind == "2" then ListKind.newExtra else ListKind.plain
+        match applySrc (decodeStr text) ⟨l, c, el, ec⟩ e (decodeStr root) k (decodeStrList oldT) ⟨rm == "1", decodeStrList files⟩ with
+        | .ok out => encodeStr out
+        | .error er => showErr er
+      else "ERR:MesonBugException"
+    | _, _ => "bad-srccmd"
+  | "sortkeylt", [a, b] => boolStr (pathKeyLt (decodeStr a) (decodeStr b))
   | "normpath", [p] => encodeStr (normpath (decodeStr p))
   | "pmatch", root :: req :: cands =>
     -- candidates: relto1|strings1|relto2|strings2|...; answer: `i:j` pairs find_node accepts
